@@ -237,6 +237,23 @@ func BuildConfigOrder(rec *Recorder, funcs, accessor, accessorFirst bool) jsonpa
 	return cfg
 }
 
+// panickingRetrieval runs a retrieval in which a user function panics at its n-th call; the panic is
+// recovered here, as a caller would. Whatever the library was holding at that moment (pooled
+// buffers with partial results, flags, locks) must not leak into later calls.
+func panickingRetrieval(kind, n int) {
+	rec := &Recorder{PanicNext: n}
+	paths := []string{"$[*].f1()", "$[?(@.f1())]", "$..a.f1()", "$[?(@.a.f4() == 1)].a", "$[*].a.g1()", "$[?(@.*.g1() > 0)]"}
+	doc := []interface{}{map[string]interface{}{"a": 1.0}, map[string]interface{}{"a": 2.0}, 3.0, map[string]interface{}{"a": 4.0}, 5.0}
+	defer func() {
+		if r := recover(); r != nil {
+			if _, ours := r.(UserPanic); !ours {
+				panic(r)
+			}
+		}
+	}()
+	_, _ = jsonpath.Retrieve(paths[kind%len(paths)], doc, BuildConfig(rec, true, false))
+}
+
 // nestedFirst evaluates path on v with the library itself (config-less Retrieve: the inner call
 // takes whatever locks and pooled buffers an outer evaluation is holding) and returns the first
 // value, or the inner retrieval's own error value unchanged. pureOut / pureErr are what the
